@@ -17,6 +17,8 @@ mod iir_blur;
 mod lighting;
 mod morphology;
 mod turbulence;
+#[cfg(resvg_verif)]
+pub mod verif;
 
 // TODO: apply single primitive filters in-place
 
@@ -365,6 +367,19 @@ fn apply_inner(
         .map(|r| r.to_int_rect())
         .ok_or(Error::InvalidRegion)?;
 
+    #[cfg(resvg_verif)]
+    crate::verif::log(|| {
+        format!(
+            "filter_region {} {} {} {} source {} {}",
+            region.x(),
+            region.y(),
+            region.width(),
+            region.height(),
+            source.width(),
+            source.height()
+        )
+    });
+
     let mut results: Vec<FilterResult> = Vec::new();
 
     for primitive in filter.primitives() {
@@ -384,6 +399,18 @@ fn apply_inner(
         }
 
         let cs = primitive.color_interpolation();
+
+        #[cfg(resvg_verif)]
+        crate::verif::log(|| {
+            format!(
+                "filter_prim {} {} {} {} {}",
+                verif::kind_name(primitive.kind()),
+                subregion.x(),
+                subregion.y(),
+                subregion.width(),
+                subregion.height()
+            )
+        });
 
         let mut result = match primitive.kind() {
             usvg::filter::Kind::Blend(ref fe) => {
@@ -446,6 +473,9 @@ fn apply_inner(
                 apply_specular_lighting(fe, region, cs, ts, input)
             }
         }?;
+
+        #[cfg(resvg_verif)]
+        crate::verif::log(|| format!("filter_res {} {}", result.width(), result.height()));
 
         if region != subregion {
             // Clip result.
